@@ -173,7 +173,11 @@ class Models(object):
                     n_distances = 1
                     m.distances = np.array([distance_range_kpc[0]]) * u.kpc
                 else:
-                    n_distances = int(np.ceil(1 + (np.log10(distance_range_kpc[1]) - np.log10(distance_range_kpc[0])) / modpar['logd_step']))
+                    # (the logarithm of the ratio, and a guard against rounding:
+                    # the difference of two rounded logarithms makes e.g. one
+                    # decade 1.0000000000000002 and adds a trial distance, so
+                    # that the grid is not the coarsest the step allows)
+                    n_distances = int(np.ceil(1 + np.log10(distance_range_kpc[1] / distance_range_kpc[0]) / modpar['logd_step'] - 1.e-10))
                     m.distances = np.logspace(np.log10(distance_range_kpc[0]), np.log10(distance_range_kpc[1]), n_distances) * u.kpc
                 print("   Number of distances :  %i" % m.n_distances)
             else:
@@ -265,7 +269,11 @@ class Models(object):
                     n_distances = 1
                     m.distances = np.array([distance_range_kpc[0]]) * u.kpc
                 else:
-                    n_distances = int(np.ceil(1 + (np.log10(distance_range_kpc[1]) - np.log10(distance_range_kpc[0])) / modpar['logd_step']))
+                    # (the logarithm of the ratio, and a guard against rounding:
+                    # the difference of two rounded logarithms makes e.g. one
+                    # decade 1.0000000000000002 and adds a trial distance, so
+                    # that the grid is not the coarsest the step allows)
+                    n_distances = int(np.ceil(1 + np.log10(distance_range_kpc[1] / distance_range_kpc[0]) / modpar['logd_step'] - 1.e-10))
                     m.distances = np.logspace(np.log10(distance_range_kpc[0]), np.log10(distance_range_kpc[1]), n_distances) * u.kpc
                 print("   Number of distances :  %i" % m.n_distances)
             else:
